@@ -674,6 +674,10 @@ func RenderUse(s *UseSpec) *UseRendered {
 	}
 	w0.add("type Q struct{ K int }")
 	w0.add("")
+	w0.add("// QA is an alias of this package's own receiver type: under the alias spellings the @testonly method enclosers")
+	w0.add("// name their receiver through it.")
+	w0.add("type QA = Q")
+	w0.add("")
 	w0.add("// hs and hsp hand out values of d's S, so that other files can call its methods without importing d.")
 	w0.add("func hs() " + q + "S { return " + q + "S{} }")
 	w0.add("")
@@ -739,7 +743,11 @@ func RenderUse(s *UseSpec) *UseRendered {
 			w.addf("func tf%d%s {", bi, params)
 		case UETestOnlyMeth:
 			w.add("// @testonly")
-			w.addf("func (q *Q) tm%d%s {", bi, params)
+			if s.Spell == SpLocalAlias || s.Spell == SpMixedAlias || s.Spell == SpBodyAlias {
+				w.addf("func (q *QA) tm%d%s {", bi, params)
+			} else {
+				w.addf("func (q *Q) tm%d%s {", bi, params)
+			}
 		case UEMethQ:
 			w.addf("func (q *Q) m%d%s {", bi, params)
 		case UEMethNamedHelper:
